@@ -813,6 +813,14 @@ def R5_exact_remainders(run):
         # when sqrt_price_0 is the greater one the pair is swapped
         sw, keep = [("sqrt_price_1", "sqrt_price_0")], [("sqrt_price_0", "sqrt_price_1")]
         ok = (res.get(True) == sw and res.get(False) == keep) if first_greater else (res.get(True) == keep and res.get(False) == sw)
+    if not ats:
+        # written with the library selections: (min(p0, p1), max(p0, p1)) of the two parameters
+        pvo = prov_of(po)
+        lv = [strip(l) for bi, bb in enumerate(po.blocks) if bb["t"]["k"] == "ret" for l in leaves(pvo.local(0, bi, len(bb["s"])))]
+        def sel(t, name):
+            t = strip(t)
+            return t[0] == "call" and t[1].rsplit("::", 1)[-1] == name and len(t[2]) == 2 and {strip(a)[1] for a in t[2] if strip(a)[0] == "param"} == {"sqrt_price_0", "sqrt_price_1"}
+        ok = len(lv) == 1 and lv[0][0] == "tuple" and len(lv[0][1]) == 2 and sel(lv[0][1][0], "min") and sel(lv[0][1][1], "max")
     run.check("R5", "price-order", ok, "increasing_price_order does not return (min, max) of its two prices", loc=po.loc(), detail="(lower, upper) = (min, max)")
 
 
